@@ -2,6 +2,7 @@ import Driver.Proto
 import Gotree.Model.C17
 import Gotree.Model.C17Cli
 import Gotree.Model.C17Heap
+import Gotree.Model.C17Global
 import Gotree.Spec.C17
 
 namespace Gotree.Driver.C17
@@ -434,6 +435,171 @@ def handleHeap (variant : String) (t : T) (runOut : String) (recs : List String)
     if recs.length != rs.length then ⟨.tie, tags, "model proposes " ++ toString rs.length ++ " rearrangements"⟩
     else ⟨.pass, tags, ""⟩
 
+/- ## histories of calls on one in-memory tree: the whole heap after every call (tie of
+   `Model/C17Global.lean`), round 7 -/
+
+section Hist
+open Gotree.C17.G
+
+def parseNats (s : String) : Option (List Nat) :=
+  if s == "" then some [] else (s.splitOn ",").mapM (·.toNat?)
+
+def parseGNode (s : String) : Option GNode :=
+  match s.splitOn ":" with
+  | [a, b] => match parseNats a, parseNats b with
+    | some x, some y => some ⟨x, y⟩
+    | _, _ => none
+  | _ => none
+
+def parseGEdge (s : String) : Option GEdge :=
+  match s.splitOn ">" with
+  | [a, b] => match a.toNat?, b.toNat? with
+    | some x, some y => some ⟨x, y⟩
+    | _, _ => none
+  | _ => none
+
+def parseGHeap (s : String) : Option GHeap :=
+  match s.splitOn "#" with
+  | [ns, es] => match (splitTerm "/" ns).mapM parseGNode, (splitTerm "/" es).mapM parseGEdge with
+    | some n, some e => some ⟨n, e⟩
+    | _, _ => none
+  | _ => none
+
+def parseGNNI (s : String) : Option GNNI :=
+  match parseNats s with
+  | some [a, b, c, d, e, f, x] => some ⟨a, b, c, d, e, f, x == 1, false⟩
+  | _ => none
+
+def outStr : Out → String
+  | .ok => "ok"
+  | .err m => "err:" ++ escape m
+  | .panic => "panic"
+
+/-- the state of the replay of a history -/
+structure HistSt where
+  heapS : String
+  heap : GHeap
+  dump : String
+  tree : T
+  view : View
+  flags : List Bool
+  stack : List (Nat × String × String)      -- rearrangements in force, with heap and dump before their Apply
+  model : State
+  oracle : Option String := none
+  tie : Option String := none
+  sawErr : Bool := false
+  sawNoop : Bool := false
+  sawLifo : Bool := false
+  sawDeep : Bool := false
+  sawStale : Bool := false
+  sawRegen : Bool := false
+  real : Nat := 0
+
+def histStep (s : HistSt) (rec : String × Nat) : HistSt :=
+  if s.oracle.isSome then s else
+  let at_ := " at call " ++ toString rec.2
+  match rec.1.splitOn ";" with
+  | ["R", objsS] =>
+    -- `Rearrange` called again on the tree as it is now: the new objects join the history
+    match (objsS.splitOn "+").mapM parseGNNI with
+    | none => { s with oracle := some ("harness: objects of the second Rearrange" ++ at_) }
+    | some objs =>
+      let key (o : Option GNNI) : String := match o with
+        | some n => toString [n.n1, n.n2, n.n11, n.n12, n.n21, n.n22] ++ toString n.cross
+        | none => "none"
+      let tie1 := if s.tie.isSome then s.tie
+        else if sortStrings ((rearrangeG s.model.g).map key) != sortStrings (objs.map fun o => key (some o)) then
+          some ("model rearrangeG on the current heap builds other objects than Rearrange" ++ at_)
+        else none
+      { s with flags := s.flags ++ objs.map (fun _ => false), model := ⟨s.model.g, s.model.objs ++ objs⟩, tie := tie1, sawRegen := true }
+  | [kS, op, out, flagS, wf, hcol, dcol] =>
+    match kS.toNat? with
+    | none => { s with oracle := some ("harness: call fields" ++ at_) }
+    | some k =>
+    let isApply := op == "A"
+    let heapS' := if hcol == "=" then s.heapS else hcol
+    let dump' := if dcol == "=" then s.dump else dcol
+    let flagBefore := s.flags.getD k false
+    let flagAfter := flagS == "1"
+    let unchanged := heapS' == s.heapS && dump' == s.dump && wf == "ok" && flagAfter == flagBefore
+    let fail (m : String) : HistSt := { s with oracle := some (m ++ at_) }
+    -- the model's call
+    let ms := step s.model ⟨k, isApply⟩
+    let mflag := (ms.2.objs[k]?.map (·.applied)).getD false
+    let tie1 : Option String :=
+      if s.tie.isSome then s.tie
+      else if outStr ms.1 != out then some ("model outcome " ++ outStr ms.1 ++ ", implementation " ++ out ++ at_)
+      else if mflag != flagAfter then some ("model applied flag differs" ++ at_)
+      else none
+    if out.startsWith "panic" then fail ("panic: " ++ out)
+    else if out != "ok" then
+      -- an error return: nothing may have been written
+      if !unchanged then fail "a call that returned an error modified the tree or the flag"
+      else
+        let tie2 := if tie1.isSome then tie1 else if ms.2.g != s.heap then some ("model heap changed by a failing call" ++ at_) else none
+        { s with model := ms.2, tie := tie2, sawErr := true }
+    else if (isApply && flagBefore) || (!isApply && !flagBefore) then
+      -- Apply of something applied, Undo of something not applied: nothing happens
+      if !unchanged then fail "Apply of an applied rearrangement / Undo of a rearrangement not applied modified the tree or the flag"
+      else
+        let tie2 := if tie1.isSome then tie1 else if ms.2.g != s.heap then some ("model heap changed by a call that does nothing" ++ at_) else none
+        { s with model := ms.2, tie := tie2, sawNoop := true }
+    else
+      if flagAfter != isApply then fail "the applied flag does not follow the call"
+      else if wf != "ok" then fail ("tree malformed after the call: " ++ wf)
+      else match parseGHeap heapS', T.undump dump' with
+        | some h', some t' =>
+          let v' := viewOf1 t'
+          if !(wfG h') then fail "heap after the call: neigh/br not paired, adjacency not symmetric, or a node without exactly one parent branch"
+          else if !(neighbourOK2V s.view v') then fail "the tree after the call is not one NNI move (one split, other branches untouched) from the tree before"
+          else
+            let lifo : Option (Option String) :=     -- none: not a LIFO undo; some none: restored; some msg
+              if isApply then none else
+              match s.stack with
+              | (k0, h0, d0) :: _ => if k0 == k then some (if h0 == heapS' && d0 == dump' then none else some "Undo of the last rearrangement applied does not restore the heap and the tree it was applied to") else none
+              | [] => none
+            match lifo with
+            | some (some m) => fail m
+            | _ =>
+              let stack' := if isApply then (k, s.heapS, s.dump) :: s.stack
+                            else match lifo with | some _ => s.stack.drop 1 | none => []
+              let tie2 := if tie1.isSome then tie1 else if ms.2.g != h' then some ("model heap differs from the implementation's records" ++ at_) else none
+              { s with heapS := heapS', heap := h', dump := dump', tree := t', view := v', flags := s.flags.set k flagAfter,
+                       stack := stack', model := ms.2, tie := tie2,
+                       sawLifo := s.sawLifo || lifo.isSome, sawDeep := s.sawDeep || (isApply && !s.stack.isEmpty),
+                       sawStale := s.sawStale || (!isApply && lifo.isNone && !s.stack.isEmpty),
+                       real := s.real + 1 }
+        | _, _ => { s with oracle := some ("harness: unreadable heap or dump" ++ at_) }
+  | _ => { s with oracle := some ("harness: call record" ++ at_) }
+
+def handleHist (kind : String) (t : T) (before runOut heap0S objsS stepsS : String) : Verdict :=
+  let tv := viewOf1 t
+  let inner := tv.set.length
+  let tags0 := ["hist", "hist-" ++ kind] ++ tagIf t.rooted "rooted" ++ tagIf (!t.rooted) "unrooted" ++
+    tagIf (tipRooted t) "tip-rooted" ++ tagIf (inner ≥ 2) "nontrivial"
+  if !(inScope1 t) then ⟨.pass, "skip-outofscope" :: tags0, ""⟩ else
+  if runOut != "ok" then ⟨.oracle, tags0, "Rearrange: " ++ runOut⟩ else
+  match parseGHeap heap0S, (splitTerm "|" objsS).mapM parseGNNI with
+  | some h0, some objs =>
+    if !(wfG h0) then ⟨.bad, tags0, "harness: heap not well formed before the history"⟩ else
+    let recs := splitTerm "|" stepsS
+    let s0 : HistSt := { heapS := heap0S, heap := h0, dump := before, tree := t, view := tv,
+                         flags := objs.map fun _ => false, stack := [], model := ⟨h0, objs⟩ }
+    let s := (recs.zip (List.range recs.length)).foldl histStep s0
+    let tags := tags0 ++ tagIf s.sawErr "hist-err" ++ tagIf s.sawNoop "hist-noop" ++ tagIf s.sawLifo "hist-lifo" ++
+      tagIf s.sawDeep "hist-deep" ++ tagIf s.sawStale "hist-nonlifo" ++ tagIf s.sawRegen "hist-regen" ++ tagIf (s.real ≥ 2) "hist-real"
+    match s.oracle with
+    | some m => if m.startsWith "harness:" then ⟨.bad, tags, m⟩ else ⟨.oracle, tags, m⟩
+    | none =>
+      -- `Rearrange` and `newNNI` on the heap: the objects the callback received
+      if rearrangeG h0 != objs.map some then ⟨.tie, tags, "model rearrangeG/newNNIG builds other objects than Rearrange"⟩
+      else match s.tie with
+      | some m => ⟨.tie, tags, m⟩
+      | none => ⟨.pass, tags, ""⟩
+  | _, _ => bad "C17.hist heap or objects"
+
+end Hist
+
 def handle (op : String) (f : List String) : Verdict :=
   match op, f with
   | "enum", [ms, before, text, recs, calls, wfF, dumpF, textF] =>
@@ -453,6 +619,23 @@ def handle (op : String) (f : List String) : Verdict :=
     match T.undump before with
     | some t => handleHeap variant t runOut (splitTerm "|" recs)
     | none => bad "C17.heap fields"
+  | "reuse", [edit, _seed, _before1, first, calls1, editOut, before2, text2, recs, calls2, wfF, dumpF, textF, fresh] =>
+    -- enumerate, edit the same in-memory tree, enumerate again with the SAME rearranger: the second
+    -- enumeration is judged as an enumeration of the tree after the edit
+    let rtags := ["reuse", "reuse-" ++ edit]
+    if first != "ok" then ⟨.oracle, rtags, "first enumeration: " ++ first ++ " (" ++ calls1 ++ " calls)"⟩
+    else if editOut != "ok" then ⟨.pass, "skip-edit-refused" :: rtags, ""⟩
+    else
+    match T.undump before2, (splitTerm "|" recs).mapM (parseRec before2 text2), calls2.toNat? with
+    | some t2, some rl, some c2 =>
+      let v := handleEnum .plain before2 text2 t2 rl c2 wfF (if dumpF == "=" then before2 else dumpF) (if textF == "=" then text2 else textF)
+      let note := if v.status == .oracle then " [second enumeration with the same NNIRearranger after " ++ edit ++ "; a fresh rearranger proposes " ++ fresh ++ "]" else ""
+      { v with tags := rtags ++ v.tags, detail := v.detail ++ note }
+    | _, _, _ => bad "C17.reuse fields"
+  | "hist", [kind, _seed, before, runOut, heap0, objs, steps] =>
+    match T.undump before with
+    | some t => handleHist kind t before runOut heap0 objs steps
+    | none => bad "C17.hist fields"
   | "glue", [variant, _req, before, out, crashed, recs, _stderr] =>
     let rl : Option (List (String × String)) := (splitTerm "|" recs).mapM fun s =>
       match s.splitOn ";" with
@@ -487,7 +670,8 @@ def handle (op : String) (f : List String) : Verdict :=
             { v with status := .tie, tags := gtags ++ v.tags, detail := "model writes " ++ toString mlines ++ " lines" }
           else { v with tags := (gtags ++ v.tags).eraseDups }
     | _, _ => bad "C17.glue fields"
-  | "cli2", [_reqA, _reqB, beforeA, beforeB, out, recs, _stderr] =>
+  | "cli2", [_reqA, _reqB, beforeA, beforeB, out, recs, _stderr]
+  | "cli2o", [_reqA, _reqB, beforeA, beforeB, out, recs, _stderr] =>
     let rl : Option (List (String × String)) := (splitTerm "|" recs).mapM fun s =>
       match s.splitOn ";" with
       | [st, d, _] => some (st, d)
